@@ -310,6 +310,15 @@ def blind(text, lang):
         return True
     if _re.search(r"#\s*ifdef\s+asm\b", text):   # c/i1270.c: the tokenizer switches processing off at '#ifdef asm'
         return True
+    # a string literal that runs over a line end without a backslash: uncrustify reads on (CT_STRING_MULTI), the language's
+    # lexer ends the literal there - the lines in between are literal text for one and code for the other
+    for it in lex.lex(text, lang):
+        if it[0] in ("str", "chr"):
+            t = it[1]
+            q = '"' if '"' in t[:4] else "'"
+            body = t[t.index(q) + 1:] if q in t else ""
+            if not t.startswith(("R", "LR", "uR", "UR", "u8R")) and (len(body) == 0 or not body.endswith(q)):
+                return True
     return False
 
 
